@@ -249,6 +249,24 @@ def cmake_check(job):
     return None
 
 
+def check_signature(args):
+    """a documented generic command must show its arguments as written, in order"""
+    from .. import rstobs
+    text = "#[[[\n# doc\n#]]\nmy_cmd(" + " ".join(args) + ")\n"
+    r = pipeline.document_text(text)
+    msgs = []
+    if r["page"] is None:
+        msgs.append(f"rejected: Documenter.process() failed: {r['error'][:160]}")
+    else:
+        ents = rstobs.Page(r["page"]).entries()
+        want = rstobs.norm_ws("my_cmd(" + " ".join(args) + ")")
+        got = [rstobs.norm_ws(b.arg) for b in ents]
+        if got != [want]:
+            msgs.append(f"signature: documented generic command shows {got}, written {want!r}")
+    return {"viol": msgs, "obs": common.digest(text), "nt": common.digest(text), "n": 1,
+            "cls": msgs[0].split(":")[0] if msgs else None, "case": {"label": "documented generic command", "sig_args": args}}
+
+
 def corpus_files(quick):
     fs = sorted(glob.glob("/usr/share/cmake-3.25/**/*.cmake", recursive=True), key=lambda f: (os.path.getsize(f), f))
     return fs[:300] if quick else fs
@@ -295,6 +313,12 @@ def run(ctx):
     cf = comment_files()
     for (label, text), r in zip(cf, ctx.sweep(check_file, cf, space="comment shapes", selftest=10)):
         pass
+    # 3b. signature of documented generic commands (arguments without line breaks)
+    one_line = [l for l in LEX if "\n" not in l]
+    sig_jobs = [[a] for a in one_line] + [[a, b] for a in CORE for b in CORE if "\n" not in a + b]
+    if not quick:
+        sig_jobs += [[a, b] for a in one_line for b in one_line]
+    ctx.sweep(check_signature, sig_jobs, space="documented generic signatures", selftest=5)
     # 4. corpus
     files = corpus_files(quick)
     res = ctx.sweep(check_corpus, files, space="corpus", selftest=3)
@@ -313,6 +337,8 @@ def run(ctx):
 
 
 def replay(case):
+    if "sig_args" in case:
+        return check_signature(case["sig_args"])["viol"]
     if "path" in case:
         r = check_corpus(case["path"])
     else:
